@@ -7,6 +7,7 @@ documents, malformed inputs (token soups, argument shapes), injected faults
 """
 import os
 import random
+import re
 
 from vlib import docgen, soup, sut
 from vlib.runner import CaseTimeout, Violation, h64, hyp_run, sut_frame, watchdog
@@ -15,8 +16,8 @@ TIMEOUTS = []
 
 ID = 'C01'
 LEVEL = 'exploration'
-RULE = ('inputs: (a) Hypothesis-generated well-formed documents (generator of C03), (b) seeded token soups and argument / key-value / definition shapes (generators of C07), '
-        '(c) documents with one injected fault incl. faults within the last 14 characters (generator of C08), (d) a sample of all of these through `python -m yalafi --nums` and `--mula`; '
+RULE = ('inputs: (a) Hypothesis-generated well-formed documents (generator of C03), (b) seeded token soups and argument / key-value / definition shapes (generators of C07), every catalogued macro and environment wrapped in the body of a three-character macro that is called at the end of the text, '
+        '(c) documents with one injected fault incl. faults within the last 14 characters (generator of C08), (e) every document of (a) also cut right behind two of its macro calls / closing braces (text that ends in the middle of a construct), (d) a sample of all of these through `python -m yalafi --nums` and `--mula`; '
         'each under a seeded random option vector (lang, pack, dcls, defs, extr, seqs, nosp, repl, unkn, multi-language with thresholds). '
         'oracle: len(text) == len(map) and 1 <= p <= len(source) for every entry of every part (with unkn only the length claim); CLI: one number per character of stdout / of each part file, all in range. '
         'non-trivial = non-empty output that contains generated text (a position repeated for neighbouring characters), an error mark, or at least two language parts; distinct by (source, options)')
@@ -29,6 +30,7 @@ LEVEL_TEXT = ('Generated search with the property itself as executable predicate
 LEVEL_NOTE = 'Sampling only. The predicate is exact (no model involved).'
 TECHNIQUE = 'Hypothesis documents + PRNG soups + fault injection under random option vectors; direct invariant check; subprocess differential for the CLI files'
 MARK = 'LATEXXXERROR'
+CUT_RE = re.compile(r'\\[A-Za-z]+\*?|\\.|[}\]$]')
 
 
 def predicate(src, res, ml, unkn):
@@ -184,6 +186,11 @@ def run_shard(ctx):
         src = soup.definition_shape(rnd)
         kw, ml, thresh = soup.draw_options(rnd)
         run_one(ctx, src, kw, ml, thresh, 'definition-shape')
+    for i in range(ctx.n(24000, 400000)):
+        src = soup.wrapped_shape(rnd, targets)
+        kw, ml, thresh = soup.draw_options(rnd)
+        kw['pack'] = '*,cleveref'
+        run_one(ctx, src, kw, ml, thresh, 'construct-in-macro-body-at-end-of-text')
     if ctx.too_many():
         return
 
@@ -200,6 +207,12 @@ def run_shard(ctx):
         if len(cli_pool) < 40 and r.random() < 0.02:
             cli_pool.append((src, kw, ml))
         run_one_h(src, kw, ml, thresh, 'document')
+        # (e) the same document cut right behind a macro call, a group or an environment delimiter:
+        # whatever is produced by the last construct must still point into the (shorter) source
+        body = len(docgen.PREAMBLE)
+        cuts = [x.end() for x in CUT_RE.finditer(src, body)]
+        for c in (r.sample(cuts, 2) if len(cuts) > 2 else cuts):
+            run_one_h(src[:c], kw, ml, thresh, 'document-prefix')
 
     def run_one_h(src, kw, ml, thresh, gen):
         before = len(ctx.violations)
